@@ -119,9 +119,11 @@ def random_case(rng, *, hermitian=True, fmt=None, max_blocks=3, max_size=3, max_
     cplx = rng.random() < 0.6 if cplx is None else cplx
     fully = None
     mode = rng.random()
+    # in non-Hermitian mode a third of the inputs are Hermitian (the two modes must then coincide)
+    herm_mats = hermitian or rng.random() < 0.3
     # energies: degenerate inside blocks only if that block is not fully diagonalized / masked appropriately
     E = rand_energies(rng, sub, exactfloat=exactfloat, degenerate_inside=True,
-                      cplx_energies=(not hermitian and not exactfloat and rng.random() < 0.3))
+                      cplx_energies=(not herm_mats and not exactfloat and rng.random() < 0.3))
     blocks = sorted(set(sub))
     if nb == 1 or (allow_fully and mode < 0.35):
         # full diagonalization of some blocks (tuple form)
@@ -134,14 +136,14 @@ def random_case(rng, *, hermitian=True, fmt=None, max_blocks=3, max_size=3, max_
         fully = {}
         for b in rng.sample(blocks, rng.randint(1, nb)):
             Eb = [E[i] for i in range(len(sub)) if sub[i] == b]
-            fully[str(b)] = rand_mask(rng, Eb, symmetric=hermitian)
+            fully[str(b)] = rand_mask(rng, Eb, symmetric=herm_mats)
     H = {key((0,) * nparam): gq.enc(diag_matrix(E))}
     n = len(sub)
     orders = [o for o in gq.orders_upto(nparam, 2) if sum(o) >= 1]
     # always include each first-order perturbation, sometimes higher-order terms
     for o in orders:
         if sum(o) == 1 or rng.random() < 0.25:
-            H[key(o)] = gq.enc(rand_matrix(rng, n, herm=hermitian, cplx=cplx, dyadic=exactfloat,
+            H[key(o)] = gq.enc(rand_matrix(rng, n, herm=herm_mats, cplx=cplx, dyadic=exactfloat,
                                            density=rng.choice([1.0, 0.7, 0.4])))
     return dict(sub=sub, nparam=nparam, N=N, H=H, hermitian=hermitian, fully=fully, fmt=fmt)
 
